@@ -5,6 +5,7 @@
 package main
 
 import (
+	"bytes"
 	"context"
 	"fmt"
 	"math/big"
@@ -54,7 +55,9 @@ var watched = common.HexToAddress("0x000000000000000000000000000000000000beef")
 
 func topicFor(k int) common.Hash { return common.BytesToHash([]byte{0xaa, byte(k + 1)}) }
 
-// Trigger k has one of four definition kinds (k%4): 0 = topic 0 equals a topic of its own; 1 =
+// Trigger k has one of five definition kinds (k%5; 4 = topic 0 of its own and data word 0 <= 50,
+// whose near-miss log ends in the middle of that word: 31 bytes 0xff, zero padded a huge number,
+// never "no value" or zero): 0 = topic 0 equals a topic of its own; 1 =
 // topic 0 equals a topic shared by all kind-1 triggers and topic 1 equals an address of its own;
 // 2 = topic 0 of its own and topic 1 as a number >= 1000 (topic predicates only, one numeric);
 // 3 = topic 0 of its own and data word 0 > 50.
@@ -70,7 +73,9 @@ func definition(k int) []byte {
 		return ss.LogPredicate{LogValueRef: ss.LogValueRef{Offset: off}, ValuePredicate: ss.ValuePredicate{Op: ss.BytesEq, ByteArgs: [][]byte{b}}}
 	}
 	var preds []ss.LogPredicate
-	switch k % 4 {
+	switch k % 5 {
+	case 4:
+		preds = []ss.LogPredicate{eq(0, t[:]), {LogValueRef: ss.LogValueRef{Offset: 4}, ValuePredicate: ss.ValuePredicate{Op: ss.UintLte, IntArgs: []*big.Int{big.NewInt(50)}}}}
 	case 0:
 		preds = []ss.LogPredicate{eq(0, t[:])}
 	case 1:
@@ -92,7 +97,13 @@ func definition(k int) []byte {
 // of trigger k but does not match its definition.
 func logFor(k int, b int, near bool) ethfake.LogSpec {
 	t := topicFor(k)
-	switch k % 4 {
+	switch k % 5 {
+	case 4:
+		if near {
+			return ethfake.LogSpec{Address: watched, Topics: []common.Hash{t}, Data: bytes.Repeat([]byte{0xff}, 31)}
+		}
+		w := numWord(uint64(b % 51))
+		return ethfake.LogSpec{Address: watched, Topics: []common.Hash{t}, Data: w[:]}
 	case 1:
 		a := addrTopic(k)
 		if near {
@@ -186,7 +197,7 @@ func runCase(env *vlib.Env, idx int, rep *vlib.Reporter) {
 				plans[b].logs = append(plans[b].logs, plannedLog{k: k, first: r.Bool()})
 			}
 		}
-		if k%4 != 0 && r.Chance(1, 2) {
+		if k%5 != 0 && r.Chance(1, 2) {
 			// a near miss inside the window: right event, wrong second predicate
 			if b := int64(t.regBlock) + 1 + int64(r.Intn(3)); b <= int64(t.expiry) && b <= int64(length) {
 				plans[b].logs = append(plans[b].logs, plannedLog{k: k, first: r.Bool(), near: true})
